@@ -654,7 +654,7 @@ def iterfit(xdata, ydata, invvar=None, upper=5, lower=5, x2=None,
     while (error != 0 or not qdone) and iiter <= maxiter:
         goodbk = sset.mask.nonzero()[0]
         if maskwork.sum() <= 1 or not sset.mask.any():
-            sset.coeff = 0
+            sset.coeff = np.zeros(np.shape(sset.coeff), dtype='d')
             iiter = maxiter + 1
         else:
             if requiren is not None:
